@@ -218,7 +218,7 @@ func c20Protect(k *core.Case, m *abs.Msg, s ref.Suite) {
 		return
 	}
 	orig := append(message.IKEPayloadContainer{}, lm.Payloads...) // the caller's payload objects
-	callerSlice := lm.Payloads                                   // the very slice (same backing array) the caller handed over and may still hold
+	callerSlice := lm.Payloads                                    // the very slice (same backing array) the caller handed over and may still hold
 	origObs := bridge.ObservePayloads(orig)
 	hdrBefore := *lm.IKEHeader
 	init := k.R.Bool()
@@ -255,7 +255,33 @@ func c20Protect(k *core.Case, m *abs.Msg, s ref.Suite) {
 	}
 	// the key object still works and the wire is the caller's
 	keep := append([]byte{}, wire...)
+	skBefore := bridge.ObservePayloads(lm.Payloads)
 	scribble(wire)
+	// the returned datagram is the caller's: writing to it (send buffer reuse) must not reach into the message
+	if !abs.EqualPayloads(skBefore, bridge.ObservePayloads(lm.Payloads)) {
+		k.Violate("aliasing", "protected-message-references-the-returned-datagram", "overwriting the datagram returned by EncodeEncrypt changed the message's Encrypted payload", w)
+		return
+	}
+	var again []byte
+	pn = core.Try(func() { again, err = lm.Encode() })
+	if pn != nil {
+		k.Violate("panic", "encode-after-protect: "+pn.Sig(), "panic", panicData(pn, w))
+		return
+	}
+	if err != nil || !bytes.Equal(again, keep) {
+		k.Violate("aliasing", "retransmission-encoding-differs-after-the-returned-datagram-was-overwritten", fmt.Sprintf("Encode of the protected message: err=%v, equal to what was sent=%v", err, bytes.Equal(again, keep)), w)
+		return
+	}
+	// and the other way round: wiping the message's Encrypted payload must not change a datagram handed out earlier
+	wire2 := append([]byte{}, again...)
+	if sk, ok := lm.Payloads[0].(*message.Encrypted); ok {
+		scribble(sk.EncryptedData)
+		if !bytes.Equal(again, wire2) {
+			k.Violate("aliasing", "encoded-datagram-references-the-message", "overwriting the Encrypted payload changed a datagram returned earlier", w)
+			return
+		}
+	}
+	k.Count("returned_datagram_overwritten_then_reencoded", 1)
 	kr, _ := libsa.NewKey(raw)
 	if d, derr, dp := libUnprotect(keep, false, kr, !init); derr != nil || dp != nil || !abs.Equal(m, d) {
 		k.Violate("mismatch", "protected-output-not-accepted", fmt.Sprint(derr, dp), w)
@@ -442,7 +468,7 @@ func c20(c *core.Ctx) {
 		})
 		c.Require("poisoned_buffer_cases")
 	}
-	c.Require("encode_pure", "protect_pure", "amended_decoded_encoded_x41", "decoded_and_scribbled_own-encoding", "decoded_and_scribbled_unprotected", "decoded_and_scribbled_mutated")
+	c.Require("returned_datagram_overwritten_then_reencoded", "encode_pure", "protect_pure", "amended_decoded_encoded_x41", "decoded_and_scribbled_own-encoding", "decoded_and_scribbled_unprotected", "decoded_and_scribbled_mutated")
 }
 
 var _ = security.GenerateRandomUint8
